@@ -14,7 +14,8 @@ Import ListNotations.
 From Verif.C16 Require Export Model.
 
 Inductive tcase :=
-| CProg (ops : list vop) (seq : N) (runs : list N)
+| CProg (ops : list vop) (seq : N) (runs : list N) (alt : list (N * N))
+     (* alt: (isolated result, shared-Program result) of the runtimes that have a host-provided global object *)
 | CVals (acts : list action) (seq : N) (runs : list N)
 | CXrt (direct : bool) (r : nat) (g : gval) (obs : N)
      (* obs: 0 accepted, 1 null, 2 TypeError, 3 anything else (panic, other error);
@@ -43,7 +44,8 @@ Definition tv_code (t : tv_result) : N :=
 
 Definition check_case (c : tcase) : bool :=
   match c with
-  | CProg ops seq runs => forallb (N.eqb seq) runs && run_readonly ops
+  | CProg ops seq runs alt =>
+      forallb (N.eqb seq) runs && forallb (fun p => N.eqb (fst p) (snd p)) alt && run_readonly ops
   | CVals acts seq runs => forallb (N.eqb seq) runs && acts_ok acts
   | CXrt direct r g obs =>
       N.eqb (tv_code (to_value r g)) obs && (negb direct || N.eqb (tv_code (call_arg_impl r g)) obs)
@@ -60,7 +62,7 @@ Definition mismatch_ids := mismatch_from 0%N.
 (* (what S says every goroutine / the API must show, what I says) *)
 Definition expected (c : tcase) : N * N :=
   match c with
-  | CProg _ seq _ => (seq, seq)
+  | CProg _ seq _ _ => (seq, seq)
   | CVals _ seq _ => (seq, seq)
   | CXrt direct r g _ => (tv_code (to_value r g), if direct then tv_code (call_arg_impl r g) else tv_code (to_value r g))
   | CFail => (0%N, 0%N)
